@@ -78,6 +78,7 @@ class Acc:
         self.transitions = 0
         self.notes: t.List[str] = []
         self.caps: t.List[str] = []
+        self.sets: t.Dict[str, t.Set[int]] = {}
 
     # -- reporting -----------------------------------------------------------------
     def ev(self, n: int = 1) -> None:
@@ -90,6 +91,10 @@ class Acc:
     def nt_counted(self, n: int = 1) -> None:
         """n non-trivial cases that are distinct by construction of the enumeration"""
         self.nontrivial_counted += n
+
+    def set_add(self, name: str, key: t.Any) -> None:
+        """named set of digests, merged by union across shards (for distinctness / coverage oracles)"""
+        self.sets.setdefault(name, set()).add(key if isinstance(key, int) else digest(key))
 
     def outcome(self, name: str, n: int = 1) -> None:
         self.outcomes[name] += n
@@ -143,6 +148,8 @@ class Acc:
                 self.notes.append(n)
         for c in o.caps:
             self.cap(c)
+        for k, v in o.sets.items():
+            self.sets.setdefault(k, set()).update(v)
 
 
 def setup_path() -> None:
@@ -212,6 +219,7 @@ def write_evidence(cid: str, level: str, tier: str, seed: int, merged: Acc, mod,
         "caps_hit": merged.caps,
         "notes": merged.notes,
         "bound": (getattr(mod, "BOUND", {}) or {}).get(tier, ""),
+        "set_sizes": {k: len(v) for k, v in sorted(merged.sets.items())},
     }
     if level == "model_checking":
         cov["states"] = merged.states
